@@ -326,6 +326,40 @@ def rounds_scenario(rnd, nsess, nrounds, per_round, mk, auth=None, first=None):
     return sc
 
 
+def add_rest(rnd, sc, odd=False, claims=None, n=1):
+    """add sessions that use the server's REST API (harness: sessions named rest*) to a rounds scenario"""
+    nb = max(it["n"] for it in sc["sessions"]["c1"] if it["op"] == "barrier")
+    sc["rest"] = True
+    for i in range(n):
+        name = "rest%d" % (i + 1)
+        items = []
+        if claims is not None:
+            cl = claims(i)
+            if cl is not None:
+                items.append(cl)
+        for rd in range(nb + 1):
+            items.append({"op": "barrier", "n": rd})
+            if rd == nb:
+                break
+            for _ in range(rnd.randint(1, 3)):
+                k = rnd.choice(KEYS)
+                if odd and rnd.random() < 0.3:
+                    k = rnd.choice([["$SYS", "x"], ["a", "", ""], ["?"], ["a", "#", "b"], ["x" * 300], ["$SYS", "clients"], ["w", "k"], ["a b", "%41"]])
+                op = rnd.choice(["get", "get", "pget", "set", "set", "delete", "pdelete", "ls", "publish"])
+                it = {"op": op, "c": name}
+                if op in ("get", "delete"):
+                    it["key"] = k
+                elif op in ("set", "publish"):
+                    it.update(key=k, val=rnd.choice(VALS))
+                elif op in ("pget", "pdelete"):
+                    it["pat"] = pat_of(rnd, k)
+                else:
+                    it["parent"] = [] if rnd.random() < 0.3 else k[:rnd.randint(0, len(k))]
+                items.append(it)
+        sc["sessions"][name] = items
+    return sc
+
+
 def gen_c13(rnd, tier):
     """all message kinds of v0 and v1, valid and invalid arguments, pipelined, 1-3 sessions"""
     def mk(rnd, name, i, st, rd):
@@ -511,7 +545,12 @@ def gen_c17(rnd, tier):
             w += [{"op": "lock", "c": "c1", "key": k, "tid": t, "wait": True}, {"op": "release", "c": "c1", "key": k, "tid": t + 1, "wait": True}]
             t += 2
         w += [{"op": "pget", "c": "c1", "pat": ["$SYS", "clients"], "tid": t, "wait": True}, {"op": "get", "c": "c1", "key": ["w", "k"], "tid": t + 1, "wait": True}]
-    return with_extmon(rnd, scs)
+    scs = with_extmon(rnd, scs)
+    # a quarter of the scenarios: one or two further offenders use the REST API
+    for sc in scs:
+        if rnd.random() < 0.25:
+            add_rest(rnd, sc, odd=True, n=rnd.randint(1, 2))
+    return scs
 
 
 GRANTS = [[], [["#"]], [["a", "#"]], [["a", "?"]], [["a", "b"]], [["?", "b"]], [["b"], ["a", "#"]], [["c", "d", "?"]]]
